@@ -31,8 +31,8 @@ def cfg(**kw):
 
 
 @st.composite
-def basic_factors(draw, c):
-    n = draw(st.integers(1, c["max_factors"]))
+def basic_factors(draw, c, min_n=1):
+    n = draw(st.integers(min(min_n, c["max_factors"]), c["max_factors"]))
     out = []
     for i in range(n):
         nl = draw(st.sampled_from([1] + [k for k in range(2, c["max_levels"] + 1) for _ in range(3)]))   # single-level factors are rare
@@ -126,6 +126,20 @@ def estimate_T(spec_wo_constraints):
         return None
 
 
+def _decouple(draw, crossing, derived):
+    """A crossing that holds a within-trial factor together with one of its own arguments nearly always contains
+    impossible combinations (open finding F09a / an unsatisfiable complete crossing) - a legal design, but one that every
+    reference-based check has to put aside.  Four times out of five the argument is taken out of the crossing."""
+    dm = {d["name"]: d for d in derived}
+    out = list(crossing)
+    for n in list(out):
+        if n in dm and dm[n]["kind"] == "within":
+            clash = [a for a in dm[n]["args"] if a in out]
+            if clash and draw(st.integers(0, 4)):
+                out = [x for x in out if x not in clash]
+    return out or list(crossing)
+
+
 @st.composite
 def leaf_block(draw, c, factors, derived, multi=False):
     names = [f["name"] for f in factors] + [d["name"] for d in derived]
@@ -137,7 +151,7 @@ def leaf_block(draw, c, factors, derived, multi=False):
         crossings = []
         for _ in range(ncross):
             n = draw(st.integers(1, min(c["max_crossing"], len(cand))))
-            crossings.append(list(draw(st.permutations(cand))[:n]))
+            crossings.append(_decouple(draw, list(draw(st.permutations(cand))[:n]), derived))
         b = {"type": "multi", "design": design, "crossings": crossings, "constraints": [],
              "rcc": not (c["rcc_false"] and draw(st.booleans())),
              "mode": draw(st.sampled_from(["equal", "repeat", "weight", "repeat", "weight"])),
@@ -149,6 +163,7 @@ def leaf_block(draw, c, factors, derived, multi=False):
         dcand = [d["name"] for d in derived if d["name"] in cand]
         if n >= 1 and dcand and not (set(crossing) & set(dcand)) and draw(st.integers(0, 2)) == 0:
             crossing[-1] = draw(st.sampled_from(dcand))     # crossed derived factors are where the samplers differ most
+        crossing = _decouple(draw, crossing, derived) if crossing else crossing
         b = {"type": "cross", "design": design, "crossing": crossing, "constraints": [],
              "rcc": not (c["rcc_false"] and draw(st.booleans()))}
     return b
@@ -159,7 +174,7 @@ def _leaf_T(spec, leaf):
 
 
 @st.composite
-def _plain_leaf(draw, c, spec, names, cand, exclude_from_crossing=()):
+def _plain_leaf(draw, c, spec, names, cand, exclude_from_crossing=(), rcc=None, avoid_targets=()):
     pool = [n for n in cand if n not in exclude_from_crossing]
     if not pool:
         return None
@@ -168,10 +183,15 @@ def _plain_leaf(draw, c, spec, names, cand, exclude_from_crossing=()):
     cx = [d["name"] for d in spec["derived"] if d["name"] in pool and d["kind"] != "within"]
     if cx and not (set(crossing) & set(cx)) and draw(st.integers(0, 4)) < 2:
         crossing[-1] = draw(st.sampled_from(cx))      # a crossed Transition/Window gives the block a preamble
-    leaf = {"type": "cross", "design": list(names), "crossing": crossing, "constraints": [], "rcc": not (c["rcc_false"] and draw(st.booleans()))}
+    crossing = _decouple(draw, crossing, spec["derived"])
+    own = not (c["rcc_false"] and draw(st.booleans()))
+    if rcc is not None and draw(st.integers(0, 19)):
+        own = rcc                                     # members mostly share the flag (mixed flags are undocumented)
+    leaf = {"type": "cross", "design": list(names), "crossing": crossing, "constraints": [], "rcc": own}
     T = _leaf_T(spec, leaf)
     for _ in range(draw(st.integers(c.get("min_leaf_constraints", 0), c.get("max_leaf_constraints", 1)))):
-        leaf["constraints"].append(draw(constraint(c, dict(spec, block=leaf), T, names, kinds=tuple(k2 for k2 in c["constraints"] if k2 != "min"))))
+        tn = [n for n in names if n not in avoid_targets] if (avoid_targets and draw(st.integers(0, 6))) else names
+        leaf["constraints"].append(draw(constraint(c, dict(spec, block=leaf), T, tn or names, kinds=tuple(k2 for k2 in c["constraints"] if k2 != "min"))))
     return leaf
 
 
@@ -195,7 +215,9 @@ def combinator_block(draw, c, spec, kind):
             if no_excl:
                 cs.append(draw(constraint(c, dict(spec, block=first), 2 * T1, names, kinds=no_excl)))
         return {"type": "repeat", "block": first, "constraints": cs}
-    second = draw(_plain_leaf(c, spec, names, cand, exclude_from_crossing=first["crossing"]))
+    # in a Nest the factors crossed in the outer block are sustained; what a constraint on them means is undocumented
+    sustained = tuple(first["crossing"]) if kind == "nest" else ()
+    second = draw(_plain_leaf(c, spec, names, cand, exclude_from_crossing=first["crossing"], rcc=first["rcc"], avoid_targets=sustained))
     if second is None:
         return first
     all_kinds = tuple(k for k in c["constraints"])
@@ -210,16 +232,21 @@ def combinator_block(draw, c, spec, kind):
     # constraints other than Exclude on the OUTER block of a Nest are ambiguous in the documentation (DESIGN.md 4.4)
     first["constraints"] = [x for x in first["constraints"] if x["kind"] == "exclude"]
     if c.get("nest_depth", 1) >= 2 and draw(st.integers(0, 2)) == 0:
-        third = draw(_plain_leaf(c, spec, names, cand, exclude_from_crossing=list(first["crossing"]) + list(second["crossing"])))
+        left = draw(st.booleans())
+        third = draw(_plain_leaf(c, spec, names, cand, exclude_from_crossing=list(first["crossing"]) + list(second["crossing"]), rcc=first["rcc"],
+                                 avoid_targets=sustained + tuple(second["crossing"])))
         if third is not None:
-            if draw(st.booleans()):
+            if not left:
                 inner = {"type": "nest", "outer": second, "inner": third, "constraints": [], "alignment": None}
+                second["constraints"] = [x for x in second["constraints"] if x["kind"] == "exclude"]   # outer block of the inner Nest
             else:
+                second["constraints"] = [x for x in second["constraints"] if x["kind"] == "exclude"]   # part of the outer Nest
                 first = {"type": "nest", "outer": first, "inner": second, "constraints": [], "alignment": None}
                 inner = third
     if inner is second and draw(st.integers(0, 3)) == 0:
         second["constraints"].append({"kind": "min", "k": 2 * T2})       # an inner block of two passes over its crossing
-    cs = [draw(constraint(c, dict(spec, block=second), T1 * T2, names, kinds=all_kinds)) for _ in range(draw(st.integers(0, 1)))]
+    tn = [n for n in names if n not in sustained] if draw(st.integers(0, 6)) else names
+    cs = [draw(constraint(c, dict(spec, block=second), T1 * T2, tn or names, kinds=all_kinds)) for _ in range(draw(st.integers(0, 1)))]
     return {"type": "nest", "outer": first, "inner": inner, "constraints": cs, "alignment": None}
 
 
@@ -249,10 +276,11 @@ def _snap_pins(draw, spec, always=False):
 @st.composite
 def design_spec(draw, c=None):
     c = c or DEFAULT
-    factors = draw(basic_factors(c))
+    kind = draw(st.sampled_from(c["blocks"]))
+    # Merge / Nest need a crossable factor per member block: construct enough factors instead of discarding the case later
+    factors = draw(basic_factors(c, min_n={"merge": 2, "nest": 3 if c.get("nest_depth", 1) >= 2 else 2}.get(kind, 1)))
     derived = draw(derived_factors(c, factors))
     spec = {"factors": factors, "derived": derived}
-    kind = draw(st.sampled_from(c["blocks"]))
     if kind in ("repeat", "merge", "nest"):
         spec["block"] = draw(combinator_block(c, spec, kind))
         if c.get("aux"):
